@@ -57,6 +57,8 @@ type MiniKnobs struct {
 	L2KB              int
 	MemBanks          int
 	Log2CacheLine     uint64
+	// H2DCycles / D2HCycles, when > 0, override the driver's copy start-up delays (driver.Builder knobs).
+	H2DCycles, D2HCycles int
 }
 
 // Platform is an assembled system.
@@ -160,6 +162,12 @@ func buildMiniTiming(p *Platform, spec Spec) {
 	d2h, h2d, swLat := 300, 500, 140
 	if spec.GPUType == "mi300a" {
 		d2h, h2d, swLat = 150, 250, 15
+	}
+	if k.H2DCycles > 0 {
+		h2d = k.H2DCycles
+	}
+	if k.D2HCycles > 0 {
+		d2h = k.D2HCycles
 	}
 	drv := db.WithEngine(eng).WithPageTable(pageTable).WithLog2PageSize(log2Page).WithGlobalStorage(storage).
 		WithD2HCycles(d2h).WithH2DCycles(h2d).Build("Driver")
